@@ -82,20 +82,22 @@ theorem lt_two_pow_bits (n : Nat) : n < 2 ^ (n.log2 + 1) := Nat.lt_log2_self
 
 theorem two_pow_log2_le (n : Nat) (h : n ≠ 0) : 2 ^ n.log2 ≤ n := Nat.log2_self_le h
 
-/-- the scalar condition on the digit estimate (a function of the bit length) -/
-def EstOK (est : Nat → Nat) : Prop := ∀ b, 10 ^ est b ≤ 2 ^ b
+/-- the scalar condition on the digit estimate (a function of the bit length): one less than the
+    estimate for `b + 1` bits is at most `log10 (2^b)`, i.e. the estimate never exceeds the digit
+    count of a number with that many bits.  (The stronger `10^est(b) ≤ 2^b` is FALSE for the code's
+    f64 quotient: at 146 964 308 bits it gives 44 240 665 although 2^146964308 < 10^44240665.) -/
+def EstOK (est : Nat → Nat) : Prop := ∀ b, 10 ^ (est (b + 1) - 1) ≤ 2 ^ b
 
 /-- under `EstOK` the estimate never exceeds the digit count -/
 theorem est_le_numDigits {est : Nat → Nat} (h : EstOK est) (n : Nat) (h0 : n ≠ 0) :
     est (n.log2 + 1) ≤ numDigits n := by
-  have h1 := h (n.log2 + 1)
+  have h1 := h n.log2
   have h2 := two_pow_log2_le n h0
   have h3 := lt_pow_numDigits n
   by_contra hlt
   push Not at hlt
-  -- 10^(numDigits n + 1) ≤ 10^est ≤ 2^(log2+1) = 2·2^log2 ≤ 2n < 10 n < 10^(numDigits+1)
-  have : 10 ^ (numDigits n + 1) ≤ 10 ^ est (n.log2 + 1) := Nat.pow_le_pow_right (by norm_num) hlt
-  rw [pow_succ] at this h1
+  -- 10^(numDigits n) ≤ 10^(est - 1) ≤ 2^log2 ≤ n < 10^(numDigits n)
+  have : 10 ^ numDigits n ≤ 10 ^ (est (n.log2 + 1) - 1) := Nat.pow_le_pow_right (by norm_num) (by omega)
   omega
 
 /-- the counting loop started at `10^d₀` with `d₀ ≤ numDigits n` and enough fuel stops at `numDigits n` -/
@@ -141,7 +143,7 @@ theorem countDigitsUint_spec {est : Nat → Nat} (h : EstOK est) (n : Nat) :
     simp only []
     rw [tenToTheUint_eq]
     have := numDigits_le_bits n h0
-    exact countLoop_spec n h0 _ _ (est_le_numDigits h n h0) (by omega)
+    exact countLoop_spec n h0 _ _ (le_trans (Nat.sub_le _ _) (est_le_numDigits h n h0)) (by omega)
 
 /-- specification of `get_rounding_term`: 1 iff the leading decimal digit is ≥ 5 -/
 def roundTerm (num : Nat) : Nat := if num ≠ 0 ∧ 5 * 10 ^ (numDigits num - 1) ≤ num then 1 else 0
@@ -190,6 +192,9 @@ theorem roundingTermLoop_spec (num : Nat) (h0 : num ≠ 0) (fuel d0 : Nat)
         have : d0 = numDigits num - 1 := by omega
         rw [← this]; omega
 
+/-- the code lowers the estimate before starting the loop (regenerated from the source) -/
+theorem roundingTermEstSub_pos : 1 ≤ roundingTermEstSub := by decide
+
 /-- **`get_rounding_term` is exact** for every `num`, for any estimate satisfying `EstOK` -/
 theorem getRoundingTerm_spec {est : Nat → Nat} (h : EstOK est) (num : Nat) :
     getRoundingTerm est num = roundTerm num := by
@@ -199,21 +204,25 @@ theorem getRoundingTerm_spec {est : Nat → Nat} (h : EstOK est) (num : Nat) :
   · rename_i h0
     rw [tenToTheUint_eq]
     have hb := numDigits_le_bits num h0
-    apply roundingTermLoop_spec num h0 _ _ (est_le_numDigits h num h0) _ (by omega)
-    intro he
-    -- est = numDigits: 10^est ≤ 2^bits = 2·2^log2 ≤ 2·num
-    have h1 := h (num.log2 + 1)
-    have h2 := two_pow_log2_le num h0
+    have he := est_le_numDigits h num h0
+    have hs := roundingTermEstSub_pos
     have hp := numDigits_pos num
-    rw [he] at h1
-    have e : numDigits num = (numDigits num - 1) + 1 := by omega
-    rw [e, pow_succ, pow_succ] at h1
+    apply roundingTermLoop_spec num h0 _ _ (by omega) _ (by omega)
+    intro he'
+    -- the lowered estimate is strictly below the digit count
     omega
 
-/-- the real-valued estimate `⌊b · log₁₀ 2⌋`, written with `Nat.log`, satisfies `EstOK`:
-    `10^(Nat.log 10 (2^b)) ≤ 2^b` -/
+/-- the real-valued estimate `⌊b · log₁₀ 2⌋`, written with `Nat.log`, satisfies `EstOK` -/
 theorem estLog_ok : EstOK (fun b => Nat.log 10 (2 ^ b)) := by
   intro b
-  exact Nat.pow_log_le_self 10 (by positivity)
+  show 10 ^ (Nat.log 10 (2 ^ (b + 1)) - 1) ≤ 2 ^ b
+  have h1 : 10 ^ Nat.log 10 (2 ^ (b + 1)) ≤ 2 ^ (b + 1) := Nat.pow_log_le_self 10 (by positivity)
+  generalize Nat.log 10 (2 ^ (b + 1)) = L at h1 ⊢
+  cases L with
+  | zero => exact Nat.one_le_pow _ _ (by norm_num)
+  | succ m =>
+    rw [pow_succ, pow_succ] at h1
+    simp only [Nat.add_sub_cancel]
+    omega
 
 end BigDec
